@@ -668,12 +668,22 @@ impl<'tcx> Cx<'tcx> {
             String::new()
         };
         let parent = if tcx.is_closure_like(def) { J::s(&def_str(tcx, tcx.parent(def))) } else { J::Null };
+        let mut upvars = Vec::new();
+        if kind == "Closure" {
+            let cty = tcx.type_of(def).instantiate_identity().skip_norm_wip();
+            if let ty::Closure(_, cargs) = cty.kind() {
+                for t in cargs.as_closure().upvar_tys().iter() {
+                    upvars.push(J::s(&ty_str(t)));
+                }
+            }
+        }
         J::obj(vec![
             ("def", J::s(name)),
             ("kind", J::s(kind)),
             ("span", span_json(tcx, body.span)),
             ("vis", J::s(&vis)),
             ("parent", parent),
+            ("upvars", J::A(upvars)),
             ("args", J::I(body.arg_count as i128)),
             ("ret", J::s(&ty_str(body.local_decls[mir::RETURN_PLACE].ty))),
             ("locals", J::A(locals)),
